@@ -208,7 +208,7 @@ pub fn def() -> PropDef {
     PropDef {
         id: "C12",
         level: "fault_enumeration",
-        rule: "workload = synthesized image (tree of up to 13 entries incl. a 3.5-14 KB stream /big, mini streams) + read-only script of 5-25 calls (one case in three with a window-boundary piece: read to the end of the first buffer window of /big, across it, back into it, forward again) (open, walk, listings, entry, exists, whole-stream reads, handle read/read_vectored/read_exact/fill_buf+consume/seek/read_to_end with buffer sizes 1024/4096/default); the fault-free run counts N underlying read+seek calls; then one run per k in [0,N) with call k failing (twelve error kinds in rotation, among them Interrupted and WouldBlock - also on seeks -, with and without side effects of the failing call), plus all pairs for N<=60 or 120 sampled nearby pairs; after every Err the same call is retried up to 3 times. Oracle per call: Err only if a fault fired during that call, otherwise exactly the fault-free value; bytes delivered by any read must equal the true content at the position the handle reports; a read, read_vectored or fill_buf that returns Err must leave the reported position where it was (std: "if an error is returned then it must be guaranteed that no bytes were read" - the repeated call then returns what it returns without faults). evaluations = number of executions; a non-trivial item = an execution in which a fault fired inside a stream read, that call returned Err and a later read on the same handle returned bytes; distinct = distinct (case, fault positions).",
+        rule: "workload = synthesized image (tree of up to 13 entries incl. a 3.5-14 KB stream /big, mini streams) + read-only script of 5-25 calls (one case in three with a window-boundary piece: read to the end of the first buffer window of /big, across it, back into it, forward again) (open, walk, listings, entry, exists, whole-stream reads, handle read/read_vectored/read_exact/fill_buf+consume/seek/read_to_end with buffer sizes 1024/4096/default); the fault-free run counts N underlying read+seek calls; then one run per k in [0,N) with call k failing (twelve error kinds in rotation, among them Interrupted and WouldBlock - also on seeks -, with and without side effects of the failing call), plus all pairs for N<=60 or 120 sampled nearby pairs; after every Err the same call is retried up to 3 times. Oracle per call: Err only if a fault fired during that call, otherwise exactly the fault-free value; bytes delivered by any read must equal the true content at the position the handle reports; a read, read_vectored or fill_buf that returns Err must leave the reported position where it was (std: if an error is returned then it must be guaranteed that no bytes were read - the repeated call then returns what it returns without faults). evaluations = number of executions; a non-trivial item = an execution in which a fault fired inside a stream read, that call returned Err and a later read on the same handle returned bytes; distinct = distinct (case, fault positions).",
         assumptions: &["single faults are enumerated exhaustively per workload; workloads and pairs are sampled", "a failed read may leave the position anywhere: only data at the position the handle itself reports is judged"],
         quick_cases: 25,
         thorough_cases: 1500,
